@@ -8,14 +8,17 @@
 //                    grow / shrink histories; element addresses are recorded when an element is created and
 //                    re-checked after every operation; the segment list (allocation serial numbers) is compared
 //                    with the Lean container model after every operation.
-// The work is split over C16_PARTS executables (-DC16_PART=k) that verif.py compiles and runs in parallel.
+// The work is split over C16_PARTS executables (-DC16_PART=k) that verif.py compiles and runs in parallel; one more
+// executable (-DC16_CONT_ONLY, built with ASan+UBSan) runs all container configurations and nothing else.
 #include "momo/SegmentedArray.h"
 #include "common/verif_common.h"
 
 #include <algorithm>
+#include <csignal>
 #include <map>
 #include <new>
 #include <utility>
+#include <unistd.h>
 
 #ifndef C16_PART
 #define C16_PART 0
@@ -65,6 +68,7 @@ static u128 specBase(Func f, unsigned L0, uint64_t seg)
 // the 64-bit hypothesis of the theorems: (index >> L0) + 1 does not wrap
 static bool fits(unsigned L0, uint64_t index) { return (index >> L0) != ~0ull; }
 
+#ifndef C16_CONT_ONLY
 // ---------- function-level sweeps ----------
 template<typename S>
 static void sweepOne(Ctx& c, Suite* s, Func f, unsigned L0, uint64_t lo, uint64_t hi)
@@ -147,12 +151,12 @@ static void runSweeps(Ctx& c)
 	const uint64_t modelN = 1ull << logModel, oracleN = 1ull << logOracle;
 	{
 		Suite s(c, "sweep", "model seg");
-		uint64_t lo = modelN / C16_PARTS * C16_PART, hi = modelN / C16_PARTS * (C16_PART + 1);
+		uint64_t lo = modelN * C16_PART / C16_PARTS, hi = modelN * (C16_PART + 1) / C16_PARTS;
 		ForL0<Func::sqrt, 0>::sweep(c, &s, lo, hi, 1ull << 18);
 		ForL0<Func::cnst, 0>::sweep(c, &s, lo, hi, 1ull << 18);
 	}
-	uint64_t span = (oracleN - modelN) / C16_PARTS;
-	uint64_t lo = modelN + span * C16_PART, hi = lo + span;
+	uint64_t lo = modelN + (oracleN - modelN) / C16_PARTS * C16_PART;
+	uint64_t hi = C16_PART + 1 == C16_PARTS ? oracleN : modelN + (oracleN - modelN) / C16_PARTS * (C16_PART + 1);
 	ForL0<Func::sqrt, 0>::sweep(c, nullptr, lo, hi, hi - lo);
 	ForL0<Func::cnst, 0>::sweep(c, nullptr, lo, hi, hi - lo);
 	c.stats.count("sweep.log2_model_upto", logModel);
@@ -308,7 +312,17 @@ static void runLog(Ctx& c, Rng& rng, bool wide)
 	}
 }
 
+#endif // !C16_CONT_ONLY
+
 // ---------- container level ----------
+// the operation in progress, printed if momo aborts (assertion) or crashes inside it
+static char g_cur[640] = "";
+static void onCrash(int sig)
+{
+	static const char head[] = "\nFAIL C16 element access: crashed (assertion / signal) during: ";
+	ssize_t w = write(1, head, sizeof head - 1); w = write(1, g_cur, strlen(g_cur)); w = write(1, "\n", 1); (void)w;
+	signal(sig, SIG_DFL); raise(sig);
+}
 struct Tracker {
 	std::map<char*, size_t> live;	// block -> size
 	uint64_t allocs = 0, frees = 0;
@@ -384,10 +398,12 @@ struct ContainerRun {
 	std::vector<uint64_t> segId;		// allocation serial numbers (same numbering as the model)
 	uint64_t nextId = 0, nextVal = 1, opNo = 0;
 	std::string cfg;
+	bool broken = false;				// elements no longer lie in allocated segments: this array is abandoned
 	std::string cur;					// the operation being executed and the state it started from (for failure texts)
 	void begin(const std::string& op)
 	{
 		cur = fmt("%s op#%llu %s on {count=%zu, segments=%zu, capacity=%zu}", cfg.c_str(), (ull)opNo, op.c_str(), arr.GetCount(), arr.mSegments.GetCount(), arr.GetCapacity());
+		snprintf(g_cur, sizeof g_cur, "%s", cur.c_str());
 	}
 
 	ContainerRun(Ctx& c_, Rng& r_, Suite& s_) : c(c_), rng(r_), s(s_), arr(TrackMM(&tr)), cfg(fmt("%s L0=%zu", fname(f), L0)) {}
@@ -419,6 +435,15 @@ struct ContainerRun {
 
 	void checkElem(size_t i)
 	{
+		{	// element access must stay inside the allocated segments (checked before touching the element)
+			size_t sg, it;
+			Settings::GetSegItemIndexes(i, sg, it);
+			if (sg >= arr.mSegments.GetCount()) {
+				c.fail("C16 element access: %s: element %zu (count now %zu) lies in segment %zu but only %zu segments are allocated", cur.c_str(), i, arr.GetCount(), sg, arr.mSegments.GetCount());
+				broken = true;
+				return;
+			}
+		}
 		Item* p = &arr[i];
 		if (p != addrOf[i]) {
 			c.fail("C16 address stability: %s: element %zu moved (count now %zu)", cur.c_str(), i, arr.GetCount());
@@ -476,6 +501,28 @@ struct ContainerRun {
 		}
 	}
 
+	// boundary-biased size near `around`: the value itself +-1, the count +-1, the capacity +-1, starts of the
+	// segments around it +-1, or a random value up to `limit`
+	size_t pickSize(size_t around, size_t limit)
+	{
+		size_t n = arr.GetCount(), cap = arr.GetCapacity();
+		size_t v;
+		switch (rng.below(6)) {
+		case 0: v = around + (size_t)rng.below(3); break;
+		case 1: v = n + (size_t)rng.below(3); break;
+		case 2: v = cap + (size_t)rng.below(3); break;
+		case 3: case 4: {
+			size_t sg, it;
+			Settings::GetSegItemIndexes(around, sg, it);
+			sg += (size_t)rng.below(3);
+			v = Settings::GetIndex(sg > 0 && rng.chance(1, 3) ? sg - 1 : sg, 0) + (size_t)rng.below(3);
+			break; }
+		default: v = (size_t)rng.below(limit + 1); break;
+		}
+		v = v > 0 ? v - 1 : 0;		// the +0..2 above become -1..+1
+		return std::min(v, limit);
+	}
+
 	void addOne()
 	{
 		size_t sb = arr.mSegments.GetCount(), nb = arr.GetCount();
@@ -490,7 +537,7 @@ struct ContainerRun {
 		s.op(fmt("new %s %zu", fname(f), L0)); s.res(state());
 		const size_t unit = size_t{1} << L0;
 		std::string sampleText = cfg + ":";
-		for (unsigned st = 0; st < steps; ++st) {
+		for (unsigned st = 0; st < steps && !broken; ++st) {
 			++opNo;
 			size_t n = arr.GetCount(), segs = arr.mSegments.GetCount();
 			unsigned r = (unsigned)rng.below(100);
@@ -517,7 +564,8 @@ struct ContainerRun {
 				}
 			} else if (r < 46) {	// reserve
 				size_t cap = arr.GetCapacity();
-				size_t want = rng.chance(1, 5) ? (size_t)rng.below(cap + 1) : cap + (size_t)rng.range(1, 4 * unit + 64);
+				size_t want = rng.chance(1, 2) ? pickSize(cap + (size_t)rng.below(2 * unit + 8), maxCount + 8 * unit)
+					: rng.chance(1, 5) ? (size_t)rng.below(cap + 1) : cap + (size_t)rng.range(1, 4 * unit + 64);
 				if (want > maxCount + 8 * unit) want = maxCount;
 				begin(fmt("Reserve(%zu)", want));
 				Counters b = snap();
@@ -527,6 +575,7 @@ struct ContainerRun {
 				after(full); emit(fmt("reserve %zu", want)); c.stats.count("cont.op.reserve"); desc = fmt("reserve(%zu)", want);
 			} else if (r < 56) {	// resize upward (default construction or copies of a value)
 				size_t to = n + (size_t)rng.range(1, 3 * unit + 50);
+				if (rng.chance(1, 2)) to = std::max(n, pickSize(to, maxCount));	// land on / next to a segment boundary
 				if (to > maxCount) to = std::max(n, maxCount);
 				bool byValue = rng.chance(1, 2);
 				begin(fmt(byValue ? "SetCount(%zu, item)" : "SetCount(%zu)", to));
@@ -538,6 +587,7 @@ struct ContainerRun {
 			} else if (r < 63) {	// resize downward
 				size_t to = (size_t)rng.below(n + 1);
 				if (rng.chance(1, 2) && n > 0) to = n - (size_t)rng.below(std::min<size_t>(n, 2 * unit + 8) + 1);
+				else if (rng.chance(1, 2)) to = std::min(n, pickSize(to, n));
 				begin(fmt("SetCount(%zu)", to));
 				arr.SetCount(to); ref.resize(to);
 				after(full); emit(fmt("setcount %zu", to)); c.stats.count("cont.op.setcount_down"); desc = fmt("setcount(%zu)", to);
@@ -552,7 +602,8 @@ struct ContainerRun {
 				if (arr.mSegments.GetCount() < segs) c.stats.count("cont.segments_freed_by_shrink", segs - arr.mSegments.GetCount());
 				after(true); emit("shrinkfit"); c.stats.count("cont.op.shrinkfit"); desc = "shrinkfit";
 			} else if (r < 82) {	// shrink to a capacity (below, at, above the count)
-				size_t cap = (size_t)rng.below(arr.GetCapacity() + unit + 1);
+				size_t cap = rng.chance(2, 3) ? pickSize(rng.chance(1, 2) ? n : (size_t)rng.below(arr.GetCapacity() + 1), arr.GetCapacity() + unit)
+					: (size_t)rng.below(arr.GetCapacity() + unit + 1);
 				begin(fmt("Shrink(%zu)", cap));
 				arr.Shrink(cap);
 				if (arr.mSegments.GetCount() < segs) c.stats.count("cont.segments_freed_by_shrink", segs - arr.mSegments.GetCount());
@@ -593,9 +644,10 @@ struct ContainerRun {
 			if (st < 14) sampleText += " " + desc;
 		}
 		c.stats.sample(sampleText);
+		if (broken) arr.mCount = std::min(arr.mCount, arr.GetCapacity());	// let the destructor run on what is allocated
 		// oracle only (no model): growth with injected allocation failures — whatever happens, elements that are
 		// still there must not have moved
-		for (unsigned round = 0; round < 40; ++round) {
+		for (unsigned round = 0; round < 40 && !broken; ++round) {
 			size_t n = arr.GetCount();
 			if (n > maxCount) break;
 			++opNo;
@@ -631,51 +683,58 @@ struct ContainerRun {
 	}
 };
 
-template<Func f, size_t L0>
-static void contOne(Ctx& c, Rng& rng, Suite& s, unsigned& index)
+// configuration number Index is instantiated (compiled) only in the executable that runs it
+template<Func f, size_t L0, unsigned Index>
+static void contOne(Ctx& c, Rng& rng, Suite& s)
 {
-	if (index++ % C16_PARTS != C16_PART) return;
-	unsigned steps = c.thorough ? 2500 : 500;
-	size_t maxCount = (size_t{1} << L0) * (f == Func::sqrt ? 24 : 12) + (c.thorough ? 20000 : 5000);
-	uint64_t made0 = Item::created + Item::copies + Item::moves, gone0 = Item::destroyed;
-	{
-		ContainerRun<f, L0> r(c, rng, s);
-		r.run(steps, maxCount);
-		c.stats.count("cont.configs");
-		c.stats.count("cont.blocks_allocated", r.tr.allocs);
+#ifdef C16_CONT_ONLY
+	constexpr bool mine = Index % 2 == 0;	// sanitizer build: every second configuration (both sizings, 6 values of L0)
+	const unsigned steps = c.thorough ? 1500 : 300;
+#else
+	constexpr bool mine = Index % C16_PARTS == C16_PART;
+	const unsigned steps = c.thorough ? 2500 : 500;
+#endif
+	if constexpr (mine) {
+		size_t maxCount = (size_t{1} << L0) * (f == Func::sqrt ? 24 : 12) + (c.thorough ? 20000 : 5000);
+		uint64_t made0 = Item::created + Item::copies + Item::moves, gone0 = Item::destroyed;
+		{
+			ContainerRun<f, L0> r(c, rng, s);
+			r.run(steps, maxCount);
+			c.stats.count("cont.configs");
+			c.stats.count("cont.blocks_allocated", r.tr.allocs);
+		}
+		if (Item::created + Item::copies + Item::moves - made0 != Item::destroyed - gone0)
+			c.stats.count("cont.construct_destroy_imbalance");	// not C16's business; shown in the evidence only
 	}
-	// every constructed element was destroyed exactly once
-	if (Item::created + Item::copies + Item::moves - made0 != Item::destroyed - gone0)
-		c.stats.count("cont.construct_destroy_imbalance");	// not C16's business; shown in the evidence only
 }
 
 static void runContainers(Ctx& c, Rng& rng)
 {
 	Suite s(c, "cont", "model seg");
-	unsigned index = 0;
-	contOne<Func::sqrt, 0>(c, rng, s, index); contOne<Func::cnst, 0>(c, rng, s, index);
-	contOne<Func::sqrt, 1>(c, rng, s, index); contOne<Func::cnst, 1>(c, rng, s, index);
-	contOne<Func::sqrt, 2>(c, rng, s, index); contOne<Func::cnst, 2>(c, rng, s, index);
-	contOne<Func::sqrt, 3>(c, rng, s, index); contOne<Func::cnst, 3>(c, rng, s, index);
-	contOne<Func::sqrt, 4>(c, rng, s, index); contOne<Func::cnst, 5>(c, rng, s, index);
-	contOne<Func::sqrt, 6>(c, rng, s, index); contOne<Func::cnst, 7>(c, rng, s, index);
-	contOne<Func::sqrt, 9>(c, rng, s, index); contOne<Func::cnst, 10>(c, rng, s, index);
-	contOne<Func::sqrt, 12>(c, rng, s, index); contOne<Func::cnst, 13>(c, rng, s, index);
-	contOne<Func::sqrt, 16>(c, rng, s, index); contOne<Func::cnst, 16>(c, rng, s, index);
-	contOne<Func::sqrt, 5>(c, rng, s, index); contOne<Func::cnst, 4>(c, rng, s, index);
-	contOne<Func::sqrt, 8>(c, rng, s, index); contOne<Func::cnst, 8>(c, rng, s, index);
-	contOne<Func::sqrt, 14>(c, rng, s, index); contOne<Func::cnst, 12>(c, rng, s, index);
+	const Func Q = Func::sqrt, K = Func::cnst;
+	contOne<Q, 0, 0>(c, rng, s); contOne<K, 1, 1>(c, rng, s); contOne<K, 0, 2>(c, rng, s); contOne<Q, 2, 3>(c, rng, s);
+	contOne<Q, 1, 4>(c, rng, s); contOne<K, 2, 5>(c, rng, s); contOne<K, 3, 6>(c, rng, s); contOne<Q, 4, 7>(c, rng, s);
+	contOne<Q, 3, 8>(c, rng, s); contOne<K, 4, 9>(c, rng, s); contOne<K, 5, 10>(c, rng, s); contOne<Q, 6, 11>(c, rng, s);
+	contOne<Q, 5, 12>(c, rng, s); contOne<K, 7, 13>(c, rng, s); contOne<K, 8, 14>(c, rng, s); contOne<Q, 8, 15>(c, rng, s);
+	contOne<Q, 9, 16>(c, rng, s); contOne<K, 10, 17>(c, rng, s); contOne<K, 12, 18>(c, rng, s); contOne<Q, 12, 19>(c, rng, s);
+	contOne<Q, 16, 20>(c, rng, s); contOne<K, 13, 21>(c, rng, s); contOne<K, 16, 22>(c, rng, s); contOne<Q, 14, 23>(c, rng, s);
 }
 
 int main(int argc, char** argv)
 {
 	Ctx c = parseArgs(argc, argv);
+	signal(SIGABRT, onCrash); signal(SIGSEGV, onCrash);
 	Rng rng(c.seed * 0x1000 + 16 + 0x100 * C16_PART);
+#ifdef C16_CONT_ONLY
+	runContainers(c, rng);	// every configuration, under ASan + UBSan
+	c.stats.count("cont.sanitizer_build");
+#else
 	c.stats.count("part", C16_PART);
 	runContainers(c, rng);
 	runBoundaries(c, rng);
 	if (C16_PART == 0) runLog(c, rng, true);
 	if (C16_PART == 1 % C16_PARTS) runLog(c, rng, false);
 	runSweeps(c);
+#endif
 	return c.finish();
 }
